@@ -18,9 +18,11 @@ def sh(cmd, cwd, env=None, timeout=600):
 
 def main():
     head = sh('git rev-parse HEAD', '/repo').stdout.strip()
+    seed_dir = os.environ.get('SEED_DIR', '/tmp/seed')
+    offset = int(os.environ.get('SEED_OFFSET', '0'))
     props = sys.argv[1:] or [f'C{i:02d}' for i in range(1, 21)]
     for pid in props:
-        wt = f'/tmp/seed/{pid}'
+        wt = f'{seed_dir}/{pid}'
         out = f'{wt}/seed_out'
         if not os.path.isdir(out):
             print(pid, 'no seed_out')
@@ -47,7 +49,7 @@ def main():
             print(pid, k, 'base rc', base.returncode, 'mutant rc', mut.returncode, tests.stdout.strip(), '=> KEEP' if ok else '=> REJECT')
             if not ok:
                 continue
-            dst = f'/verif/seeded/{pid}-{k}'
+            dst = f'/verif/seeded/{pid}-{k + offset}'
             os.makedirs(dst, exist_ok=True)
             with open(f'{dst}/patch.diff', 'w') as fh:
                 fh.write(real_diff)
